@@ -4,7 +4,7 @@
    token stream from the real implementation. *)
 From Coq Require Import String Ascii.
 From Radius Require Import Base.Bytes Base.Guard Base.Res Gen.Consts
-  Model.Attrs Model.Packet Model.Passwords Model.Codecs Model.Client Model.Shutdown Model.ShutdownSched Spec.C05 Spec.C10 Spec.C09 Spec.C01 Spec.C03 Spec.C04 Spec.C11.
+  Model.Attrs Model.Packet Model.Passwords Model.Codecs Model.Client Model.Dispatch Spec.C06 Model.Shutdown Model.ShutdownSched Spec.C05 Spec.C10 Spec.C09 Spec.C01 Spec.C03 Spec.C04 Spec.C11.
 From Radius Require Import Crypto.MD5.
 Open Scope list_scope.
 Open Scope nat_scope.
@@ -253,6 +253,55 @@ Definition dispatch_sched (name : bytes) (bs : list bytes) (zs : list Z) : optio
     Some (flat_map (fun l => TI (-1) :: map TI l) (run_hacts true Model.Shutdown.init (take_hacts zs)))
   else None.
 
+(* ---- C06 ---- *)
+(* zs = skip :: npeers :: err flags (npeers) ++ events (kind, a); bs = secrets (npeers) ++ datagrams of the DArrive events *)
+Fixpoint take_devents (zs : list Z) (bs : list bytes) : list devent :=
+  match zs with
+  | k :: a :: r =>
+    if (k =? 0)%Z then
+      match bs with d :: bs' => DArrive (Z.to_N a) d :: take_devents r bs' | [] => [] end
+    else (if (k =? 1)%Z then DReturn (Z.to_nat a) else DClean (Z.to_nat a)) :: take_devents r bs
+  | _ => []
+  end.
+Definition t_dout (o : dout) : list tok :=
+  match o with
+  | ODropped => [TI 0]
+  | ODispatched r => TI 1 :: TI (Z.of_N (r_remote r)) :: t_packet (r_packet r)
+  | ONone => [TI 2]
+  end.
+Definition dispatch_c06 (name : bytes) (bs : list bytes) (zs : list Z) : option (list tok) :=
+  if name_is name "s.dispatch" then
+    match zs with
+    | sk :: np :: r =>
+      let n := Z.to_nat np in
+      let errs := firstn n r in
+      let secs := firstn n bs in
+      let so := fun a : N => if (nth (N.to_nat a) errs 1 =? 1)%Z then SecErr else Sec (nth (N.to_nat a) secs []) in
+      let '(s, outs) := spec_drun md5 (sk =? 1)%Z so dinit (take_devents (skipn n r) (skipn n bs)) in
+      Some (flat_map t_dout outs ++ [TI (zlen (inflight s))])
+    | _ => Some [TI (-96)]
+    end
+  else if name_is name "m.dispatch" then
+    match zs with
+    | sk :: np :: r =>
+      let n := Z.to_nat np in
+      let errs := firstn n r in
+      let secs := firstn n bs in
+      let so := fun a : N => if (nth (N.to_nat a) errs 1 =? 1)%Z then SecErr else Sec (nth (N.to_nat a) secs []) in
+      let '(s, outs) := drun md5 (sk =? 1)%Z so dinit (take_devents (skipn n r) (skipn n bs)) in
+      Some (flat_map t_dout outs ++ [TI (zlen (inflight s))])
+    | _ => Some [TI (-96)]
+    end
+  else if name_is name "m.reply" then
+    (* bs = [datagram; secret; extra attribute value], zs = [code; from] *)
+    match parse (b1 bs) (b2 bs) with
+    | Ok p => Some (t_res (response_write md5 (mkreq p (Z.to_N (nth 1 zs 0%Z)))
+                             (mkpacket (z1 zs) (ident p) (auth p) (secret p) [mkavp 18 (b3 bs)]))
+                          (fun x => [TI (Z.of_N (fst x)); TB (snd x)]))
+    | _ => Some [TI (-95)]
+    end
+  else None.
+
 Definition dispatch (name : bytes) (bs : list bytes) (zs : list Z) : list tok :=
   if name_is name "m.attrs_run" then run_attrs false bs zs
   else if name_is name "s.attrs_run" then run_attrs true bs zs
@@ -262,7 +311,8 @@ Definition dispatch (name : bytes) (bs : list bytes) (zs : list Z) : list tok :=
   match dispatch_codec name bs zs with Some t => t | None =>
   match dispatch_client name bs zs with Some t => t | None =>
   match dispatch_sched name bs zs with Some t => t | None =>
-  [TI (-97)] end end end end end.
+  match dispatch_c06 name bs zs with Some t => t | None =>
+  [TI (-97)] end end end end end end.
 
 Require Extraction.
 Require Import ExtrOcamlBasic.
